@@ -222,7 +222,7 @@ pub fn bitfield(args: TokenStream, input: TokenStream) -> TokenStream {
         };
 
         let default_trait = quote! {
-            impl Default for #struct_name {
+            impl ::core::default::Default for #struct_name {
                 fn default() -> Self {
                     Self::DEFAULT
                 }
